@@ -364,6 +364,25 @@ fn check_limit(pattern: &str, re: &regex::bytes::Regex, input: &[u8], json: bool
     None
 }
 
+/// C09 ("each file's messages form one begin, then matches/contexts in order, then one end") also when only
+/// context lines are written: `--json --passthru` (and `-A/-B`) on inputs with and without a match
+fn check_json_framing(pattern: &str, input: &[u8], multiline: bool, passthru: bool) -> Option<String> {
+    let m = matcher(pattern, multiline)?;
+    let mut sb = SearcherBuilder::new();
+    sb.line_number(true).multi_line(multiline);
+    if passthru { sb.passthru(true); } else { sb.after_context(1).before_context(1); }
+    let mut searcher = sb.build();
+    let mut p = JSONBuilder::new().always_begin_end(false).build(vec![]);
+    if searcher.search_slice(&m, input, p.sink(&m)).is_err() { return Some("search failed".into()); }
+    let out = p.into_inner();
+    let kinds: Vec<String> = String::from_utf8_lossy(&out).lines().filter_map(|l| serde_json::from_str::<serde_json::Value>(l).ok()).map(|v| v["type"].as_str().unwrap_or("?").to_string()).collect();
+    if kinds.is_empty() { return None; }
+    let ok = kinds.first().map(|k| k == "begin").unwrap_or(false) && kinds.last().map(|k| k == "end").unwrap_or(false)
+        && kinds.iter().filter(|k| *k == "begin").count() == 1 && kinds.iter().filter(|k| *k == "end").count() == 1;
+    if !ok { return Some(format!("passthru={}: the messages are {:?}, not one begin .. one end", passthru, kinds)); }
+    None
+}
+
 /// C14 ("ripgrep never writes a NUL byte taken from a searched file to its output" unless --text): binary detection
 /// in convert or quit mode, with context, slice and reader strategies: no NUL byte in what the printers write
 fn check_nul(pattern: &str, input: &[u8], mode: u32, multiline: bool, quit: bool, reader: bool, ctx: usize) -> Option<String> {
@@ -442,6 +461,15 @@ fn run_suite(suite: &str, maxlen: usize) -> i32 {
                     let re = oracle(pi);
                     let mut fail: Option<(String, String)> = None;
                     if suite == "limit" {
+                        for ml in [false, true] { for pt in [false, true] {
+                            if fail.is_none() {
+                                if let Some(w) = check_json_framing(PATTERNS[pi], inp, ml, pt) {
+                                    fail = Some((w, format!("VERIF_REPLAY_SUITE=framing VERIF_REPLAY_PATTERN={} VERIF_REPLAY_INPUT={} VERIF_REPLAY_MULTILINE={} VERIF_REPLAY_N={}", pi, hex(inp), ml as u8, pt as u8)));
+                                }
+                            }
+                        }}
+                    }
+                    if suite == "limit" && fail.is_none() {
                         // (without -U only: under -U the limit counts delivered blocks, which may hold several adjacent lines)
                         'l: for json in [false, true] { for ml in [false] { for n in 1..3u64 { for a in 0..2usize {
                             if let Some(w) = check_limit(PATTERNS[pi], &re, inp, json, ml, n, a) {
@@ -479,7 +507,7 @@ fn main() {
         let g = |k: &str| std::env::var(k).ok().and_then(|v| v.parse::<usize>().ok()).unwrap_or(0);
         let pi = g("VERIF_REPLAY_PATTERN");
         let inp = unhex(&std::env::var("VERIF_REPLAY_INPUT").unwrap());
-        let r = if suite == "limit" { check_limit(PATTERNS[pi], &oracle(pi), &inp, g("VERIF_REPLAY_JSON") != 0, g("VERIF_REPLAY_MULTILINE") != 0, g("VERIF_REPLAY_N") as u64, g("VERIF_REPLAY_A")) }
+        let r = if suite == "framing" { check_json_framing(PATTERNS[pi], &inp, g("VERIF_REPLAY_MULTILINE") != 0, g("VERIF_REPLAY_N") != 0) } else if suite == "limit" { check_limit(PATTERNS[pi], &oracle(pi), &inp, g("VERIF_REPLAY_JSON") != 0, g("VERIF_REPLAY_MULTILINE") != 0, g("VERIF_REPLAY_N") as u64, g("VERIF_REPLAY_A")) }
                 else { check_nul(PATTERNS[pi], &inp, g("VERIF_REPLAY_MODE") as u32, g("VERIF_REPLAY_MULTILINE") != 0, g("VERIF_REPLAY_QUIT") != 0, g("VERIF_REPLAY_READER") != 0, g("VERIF_REPLAY_CTX")) };
         match r { Some(w) => { println!("FAILING CASE printout/{} pattern={:?} input={:?}: {}", suite, PATTERNS[pi], String::from_utf8_lossy(&inp), w); std::process::exit(1); } None => { println!("replayed case agrees"); return; } }
     }
